@@ -18,20 +18,16 @@ package kernel
 //@   -- CacheRound.Copy / FinalRound.Copy: new objects, a new RoundLink and a new snapshot slice (append to an empty literal)
 //@   ensures result0 != nil && fresh(result0) && result1 != nil && fresh(result1)
 //@   ensures result0.References != nil && fresh(result0.References) && fresh(result0.Snapshots)
+//@   ensures chain.State != nil && chain.State.CacheRound != nil && chain.State.CacheRound.References != nil ==> result0.References.External == chain.State.CacheRound.References.External
 //@   ensures forall i int :: 0 <= i && i < len(result0.Snapshots) ==> result0.Snapshots[i] != nil
 //@ assume func (node *Node) CheckBroadcastedToPeers
 //@   modifies nothing
-//@ -- (storage.Store).ReadRound: ONE contract, in storage/zz_contracts_c20_verif.go (a duplicate here shadowed it and, claiming
-//@ -- `err == nil ==> result0 != nil`, made the "round not collected yet" paths of kernel/graph.go unreachable: ReadRound returns (nil, nil)
-//@ -- for an absent round). "The round referenced by the head round exists" is the precondition [ext-known] of prepareAnnouncement below.
-//@ assume func (chain *Chain) determineBestRound
-//@   modifies nothing
-//@ assume func (chain *Chain) updateEmptyHeadRoundAndPersist
-//@   modifies cache.References, ghost kernel_graph_state
-//@ assume func (chain *Chain) startNewRoundAndPersist
-//@   modifies ghost kernel_graph_state
-//@   ensures err == nil && result1 != nil ==> result0 != nil && fresh(result0) && fresh(result1)
-//@   ensures err == nil && result1 != nil ==> (forall i int :: 0 <= i && i < len(result0.Snapshots) ==> result0.Snapshots[i] != nil)
+//@ -- (storage.Store).ReadRound: the assumed interface contract of C20 (storage/zz_contracts_c20_verif.go) is the one in force. It returns
+//@ -- (nil, nil) for an absent key; that the round referenced by the head round IS present is a store invariant stated as a precondition
+//@ -- of prepareAnnouncement below ([head-ref]).
+//@ -- determineBestRound, updateEmptyHeadRoundAndPersist, startNewRoundAndPersist: VERIFIED contracts in zz_contracts_c20_verif.go (C20). Their
+//@ -- preconditions (graph/store representation) are C20's subject (trustpre quiet); their frames (chain.State round state, the chains map,
+//@ -- the node's graph timestamp, the store version) are part of prepareAnnouncement's frame below.
 
 // ───────────── prepareAnnouncement ─────────────
 // A self announcement (CosiActionSelfEmpty) carries transactions that popAndProcessCacheQueue already took OUT of the cache queue
@@ -43,11 +39,18 @@ package kernel
 // Explicit panics ("should never be here", final.Number+1 != cache.Number) are graph-consistency assertions: `maypanic`.
 //@ func (chain *Chain) prepareAnnouncement
 //@   property C24
-//@   trustpre Gap asFinal IsPledging -- RoundOK / representation of the round copies belong to C19, Pledging to C10
+//@   trustpre IsPledging -- Pledging: C10
+//@   trustpre quiet: Gap asFinal determineBestRound updateEmptyHeadRoundAndPersist startNewRoundAndPersist -- graph + store + membership representation (NodeRep, AllBooted, MirrorOK ...): C20/C10; not needed here, not added to the context
 //@   requires CosiChainOK(chain) && AggsShape(chain) && !isnil(chain.persistStore)
 //@   requires m != nil && m.Snapshot != nil && m.data != nil
+//@   requires [head-ref] chain.State != nil ==> chain.State.CacheRound != nil && chain.State.CacheRound.References != nil &&
+//@       storage.SHasRound(storage.StoreVer(chain.persistStore), chain.State.CacheRound.References.External)
+//@       -- store invariant (C20: startNewRoundAndPersist [known]/[durable-head], updateEmptyHeadRoundAndPersist [known]): the external round the
+//@       -- head round refers to is a stored round; ReadRound returns (nil, nil) for an absent key and the code dereferences the result
+//@   ignorepost Gap:roundok asFinal:closed determineBestRound updateEmptyHeadRoundAndPersist startNewRoundAndPersist:shape,next
+//@       -- their postconditions (round order / permutation, durable graph state) are not needed here; only the shape of startNewRoundAndPersist's results
 //@   maypanic
-//@   modifies chain.CosiAggregators, chain.CosiVerifiers, m.Snapshot.RoundNumber, m.Snapshot.References, ghost bytes_cachequeue, ghost store_errors, ghost kernel_graph_state
+//@   modifies chain.CosiAggregators, chain.CosiVerifiers, m.Snapshot.RoundNumber, m.Snapshot.References, ghost bytes_cachequeue, ghost store_errors, ghost kernel_graph_state, ghost storever, chain.State.RoundLinks[..], chain.node.chains.m[..], chain.State.CacheRound, chain.State.FinalRound, chain.State.RoundHistory, chain.State.RoundHistory[..cap], chain.node.GraphTimestamp, chain.FinalIndex, chain.FinalCount
 //@   ensures [deferred-requeues] !result0 && err == nil && StoreErrors(chain.node.persistStore) == old(StoreErrors(chain.node.persistStore)) ==>
 //@       TxsRequeued(chain.node.persistStore, old(m.Snapshot))
 //@   -- the two CoSi maps are either the same objects as before (contents untouched) or the new, empty maps of a round reset
